@@ -151,8 +151,14 @@ def roundtrip_event(k, v, ua=None):
         ev["v"]["ua"] = list(ua) if ua is not None else []
         if b["ok"] and ua is not None:
             raw = bytes(b["v"])
-            if raw[80] != len(UA) or raw[81:81 + len(UA)] != UA:
-                return None         # the builder's user agent is not where/what we expect: nothing to splice
+            if len(raw) < 81 + len(UA) or raw[80] != len(UA) or raw[81:81 + len(UA)] != UA:
+                ua = None           # the builder's user agent is not where/what we expect: nothing to splice, judge the plain round trip
+                ev["v"]["check_ua"] = False
+                ev["v"]["ua"] = []
+        if b["ok"] and ua is not None:
+            raw = bytes(b["v"])
+            if False:
+                pass
             import bits
             raw = raw[:80] + bits.compact_size_uint(len(ua)) + bytes(ua) + raw[81 + len(UA):]
             ev["built"]["b"] = list(raw)
